@@ -30,7 +30,7 @@ META = {
         "fermionic_core.FermionicArray.unfuse",
     ],
     "floors": {
-        "quick": {"evaluations": 4000, "distinct_nontrivial": 500, "tables": {"strategy/insert": 1000, "strategy/concat": 1000, "kind/fermionic": 500, "roundtrip": 2000, "hook/plan-compared": 2000, "feature/nested": 50, "feature/single-axis-group": 300}},
+        "quick": {"evaluations": 4000, "distinct_nontrivial": 500, "tables": {"strategy/insert": 1000, "strategy/concat": 1000, "kind/fermionic": 500, "roundtrip": 2000, "hook/plan-compared": 2000, "feature/nested": 50, "feature/single-axis-group": 300, "feature/conj-of-fused-before": 300}},
         "thorough": {"evaluations": 300000, "distinct_nontrivial": 30000, "tables": {"strategy/concat": 50000, "kind/fermionic": 30000, "feature/nested": 3000}},
     },
     "wall": {"quick": 100, "thorough": 1700},
@@ -366,6 +366,11 @@ def case_structure(ctx, hooks, rng):
             if len(groups) > 1:
                 feat.append("multi-group")
             one_fuse(ctx, hooks, rng, x, groups, feat)
+            if rng.random() < 0.25:
+                # the conjugate (indices derived from already-hashed ones) with the same grouping
+                oc = ctx.call(x.conj)
+                if oc.ok:
+                    one_fuse(ctx, hooks, rng, oc.value, groups, feat + ["conj-of-fused-before"])
             if not ctx.time_left():
                 return
 
